@@ -148,7 +148,8 @@ mod verif_nx_mlstring {
         let rs = ReconstructionSettings::new(LineEnding::Lf, TabKind::Soft, 2, 2);
         let sf = StringFormatter { recon_settings: &rs };
         // literal texts: already at indentation 2, at 4, at 0, mis-indented, and a single-line literal
-        let lits = ["'''\n  a\n  '''", "'''\n    a\n    '''", "'''\na\n'''", "'''\n a\n  '''", "'x'"];
+        // (the last two: indentation made of U+3000 and ASCII blanks in either order - both are blanks to the scanner)
+        let lits = ["'''\n  a\n  '''", "'''\n    a\n    '''", "'''\na\n'''", "'''\n a\n  '''", "'x'", "'''\n\u{3000} a\n\u{3000} '''", "'''\n \u{3000}a\n \u{3000}'''"];
         let mut n = 0u64;
         for l1 in lits { for l2 in lits { for ign1 in [false, true] { for ign2 in [false, true] { for ind in 0..=2u16 {
             let kind = |l: &str| if l.contains('\n') { TokenType::TextLiteral(TextLiteralKind::MultiLine) } else { TokenType::TextLiteral(TextLiteralKind::SingleLine) };
@@ -188,7 +189,7 @@ mod verif_nx_mlstring {
             n += 1;
         }}}}}
         println!("NX mlstring_changed_flag: {} cases", n);
-        assert!(n == 300, "enumeration ran");
+        assert!(n == 588, "enumeration ran");
     }
 
 }
